@@ -15,9 +15,10 @@ namespace QV.C05.Spec
 
 /-- value of one digit character (0-9, a-z, A-Z); 36 for anything else -/
 def digitVal (c : Char) : Nat :=
-  if '0' ≤ c ∧ c ≤ '9' then c.toNat - '0'.toNat
-  else if 'a' ≤ c ∧ c ≤ 'z' then c.toNat - 'a'.toNat + 10
-  else if 'A' ≤ c ∧ c ≤ 'Z' then c.toNat - 'A'.toNat + 10
+  let n := c.toNat
+  if 48 ≤ n ∧ n ≤ 57 then n - 48              -- '0' … '9'
+  else if 97 ≤ n ∧ n ≤ 122 then n - 97 + 10   -- 'a' … 'z'
+  else if 65 ≤ n ∧ n ≤ 90 then n - 65 + 10    -- 'A' … 'Z'
   else 36
 
 /-- positional value: `Σ dᵢ · radix^(n-1-i)` (most significant digit first) -/
